@@ -8,6 +8,10 @@
 (*   perm  every order of every subset of <= PermLen distinct options, two value assignments      *)
 (*   rand  seeded (TLC -seed): random subsets in random order with random values, and random      *)
 (*         long sequences with repeated options                                                   *)
+(*   bind  host and the optional bind address: -b absent / equal to -h / different from it, host   *)
+(*         and bind names in mixed case, both orders (the sites that USE a parsed endpoint --      *)
+(*         the endpoint manager of a direct address, the adapters of a server configuration --     *)
+(*         must see the endpoint the text names, not one rewritten from its bind address or case)  *)
 (*   conv  endpoint records for the conversion round trip (all kinds, set ids)                    *)
 EXTENDS Endpoint, Json, Randomization, SequencesExt
 CONSTANTS ExhLen, ExhProtos, PermLen, NRand, NConv
@@ -15,7 +19,7 @@ VARIABLE x
 
 LSeq == <<"h", "p", "t", "g", "q", "w", "v", "e", "b">>
 NL   == Len(LSeq)
-StrV == [h |-> <<"h1", "127.0.0.1", "a.b-c.example", "::1">>, b |-> <<"b1", "0.0.0.0">>]
+StrV == [h |-> <<"h1", "127.0.0.1", "Node7.DC-East.example", "::1">>, b |-> <<"Bind-1", "0.0.0.0", "127.0.0.1">>]
 IntV == [p |-> <<80, 0, 1, 19386, 65535, -1>>,
          t |-> <<60000, 0, 1, 3000, -1>>,
          g |-> <<1, 0, -1, 10>>,
@@ -41,6 +45,14 @@ ExhOpts == UNION {[1 .. n -> AllTokens] : n \in 0 .. ExhLen}
 Inj(s)   == \A i, j \in DOMAIN s : i # j => s[i] # s[j]
 PermLs   == UNION {{s \in [1 .. n -> 1 .. NL] : Inj(s)} : n \in 0 .. PermLen}
 PermOpts == {[i \in DOMAIN s |-> TokOf(LSeq[s[i]], a * (i + s[i]))] : s \in PermLs, a \in {0, 1}}
+
+\* ---- bind: every host with no bind / every bind (one of them equal to a host), bind before and after the host
+HTok(i) == Tok("h", StrV.h[i], 0)
+BTok(j) == Tok("b", StrV.b[j], 0)
+BindOpts == {<<HTok(i), Tok("p", "", 19386)>> : i \in DOMAIN StrV.h}
+            \cup {<<HTok(i), BTok(j), Tok("p", "", 19386), Tok("t", "", 60000)>> : i \in DOMAIN StrV.h, j \in DOMAIN StrV.b}
+            \cup {<<BTok(j), Tok("p", "", 80), HTok(i)>> : i \in DOMAIN StrV.h, j \in DOMAIN StrV.b}
+            \cup {<<BTok(j), Tok("p", "", 80)>> : j \in DOMAIN StrV.b}
 
 \* ---- rand (a): a random priority per letter (below 8: option absent) orders a random subset; random values
 Prio   == RandomSubset(NRand, [(1 .. NL) \X {1, 2} -> 0 .. 39])
@@ -75,7 +87,8 @@ ConvRand == RandomSubset(NConv,
 ConvCase(e) == [cls |-> "conv", e |-> e, exp |-> [FromTars(ToTars(e)) EXCEPT !.bind = e.bind] @@ [net |-> NetOf(e.kind), key |-> KeyText(e)]]
 ConvSeq == LET q == SetToSeq(ConvBase \cup ConvRand) IN [k \in DOMAIN q |-> ConvCase(q[k])]
 
-Cases == OptSeq("exh", ExhOpts, ExhProtos) \o OptSeq("perm", PermOpts, TRUE) \o OptSeq("rand", RandSubOpts \cup RandLongOpts, FALSE) \o ConvSeq
+Cases == OptSeq("exh", ExhOpts, ExhProtos) \o OptSeq("perm", PermOpts, TRUE) \o OptSeq("rand", RandSubOpts \cup RandLongOpts, FALSE)
+         \o OptSeq("bind", BindOpts, TRUE) \o ConvSeq
 
 ASSUME LET c == Cases IN ndJsonSerialize("cases.ndjson", c) /\ PrintT(<<"CASES", Len(c), "tokens", NT>>)
 Init == x = 0
